@@ -367,7 +367,7 @@ def run(ctx):
         for hist, (prob, step, model) in zip(items, res):
             transitions += 1
             ctx.count(transitions=len(hist) + 1, traces_validated_against_impl=1)
-            ctx.outcome("bfs:" + ("ok" if prob is None else prob[:30]))
+            ctx.outcome("bfs:" + (("state:" + repr(sorted(model.items()))) if prob is None else prob[:30]))
             if prob:
                 report(ctx, "module", hist, prob, step)
                 continue
